@@ -463,7 +463,8 @@ def c17_failures(name, ad, c, rng):
 # ------------------------------------------------------------------ C15: carriers
 
 DATA_KEYS = ("inp", "zinp", "lon", "lat")
-DATA_CARRIERS = ["list_none", "list_nan", "tuple_none", "float32", "int64", "masked_nan", "masked_hidden", "series", "dask"]
+DATA_CARRIERS = ["list_none", "list_nan", "tuple_none", "float32", "int64", "masked_nan", "masked_hidden", "series", "dask",
+                 "object_none", "series_object", "int16", "int8"]
 TIME_CARRIERS = ["dt64_s", "dt64_ms", "dt64_us", "pydatetime", "timestamps", "dtindex", "series", "series_utc",
                  "dtindex_utc", "epoch_s_list", "epoch_s_array", "epoch_s_int32", "epoch_s_int64", "epoch_s_uint32",
                  "dtindex_s", "series_s", "dtindex_ms"]
@@ -489,8 +490,15 @@ def convert_data(arr, carrier):
         if not np.array_equal(f32.astype("float64"), arr, equal_nan=True):
             return arr, False
         return f32, True
-    if carrier in ("int64", "int32", "int_list"):
-        if isn.any() or not np.all(arr == np.floor(arr)) or (arr.size and np.max(np.abs(arr)) >= 2 ** 31):
+    if carrier in ("object_none", "series_object"):
+        # what np.array([1.0, None, 3.0]) / a DataFrame column with gaps written as None gives: dtype object
+        if not isn.any():
+            return arr, False
+        obj = np.array([None if m else float(v) for v, m in zip(arr.tolist(), isn.tolist())], dtype=object)
+        return (obj if carrier == "object_none" else pd.Series(obj, dtype=object)), True
+    if carrier in ("int64", "int32", "int16", "int8", "int_list"):
+        lim = {"int16": 2 ** 15, "int8": 2 ** 7}.get(carrier, 2 ** 31)
+        if isn.any() or not np.all(arr == np.floor(arr)) or (arr.size and np.max(np.abs(arr)) >= lim):
             return arr, False
         if carrier == "int_list":
             return [int(v) for v in arr.tolist()], True
@@ -930,15 +938,29 @@ def roc_subsecond_cases(rng, k):
     """rate_of_change cases on irregular axes whose steps are NOT whole seconds (>= 1 s, so the elapsed
     whole seconds are >= 1) with thresholds between the rates for neighbouring second counts"""
     out = []
-    for _ in range(k):
+    for j in range(k):
         n = rng.randint(3, 7)
-        t = (1577880000 + rng.randint(0, 50)) * NS + rng.choice([0, 100, 250, 500, 750, 900]) * 10 ** 6
+        # every other case on a quarter-second grid: those instants are floats exactly, so the axis can also be given
+        # as fractional epoch seconds (the other carriers of sub-second instants are datetime-like)
+        quarter = j % 2 == 0
+        t = (1577880000 + rng.randint(0, 50)) * NS + rng.choice([0, 250, 500, 750] if quarter else [0, 100, 250, 500, 750, 900]) * 10 ** 6
         ts = []
         for _ in range(n):
             ts.append(t)
-            t += rng.choice([1100, 1200, 1500, 1800, 1900, 2100, 2500, 2900, 3000, 1000]) * 10 ** 6
+            t += rng.choice([1250, 1500, 1750, 2500, 2750, 3000, 1000] if quarter else
+                            [1100, 1200, 1500, 1800, 1900, 2100, 2500, 2900, 3000, 1000]) * 10 ** 6
         xs = [None if rng.random() < 0.1 else core.fr(F(rng.randint(-8, 8) * 4)) for _ in range(n)]
         thr = F(rng.choice([1, 2, 3, 4, 6]))
+        # ... or a threshold strictly between |dx| / dt and |dx| / trunc(dt) of some step: the flag then shows whether
+        # the elapsed time was truncated to whole seconds (as the test does for every representation of the times)
+        mids = []
+        for i in range(1, n):
+            dt = F(ts[i] - ts[i - 1], NS)
+            if xs[i] is not None and xs[i - 1] is not None and dt != int(dt) and F(xs[i]) != F(xs[i - 1]):
+                dx = abs(F(xs[i]) - F(xs[i - 1]))
+                mids.append((dx / dt + dx / int(dt)) / 2)
+        if mids and rng.random() < 0.7:
+            thr = rng.choice(mids)
         out.append({"xs": xs, "ts_ns": ts, "kind": "dt64", "thr": core.fr(thr)})
     return out
 
